@@ -534,6 +534,50 @@ func main() {
 		}
 	}
 
+	// ---- reload: a second runner is started on the SAME address while the first instance is draining ----
+	addReload := func(fl string, keep bool, order []gstep, tag string) {
+		g := &group{order: order, shared: false}
+		for i := 0; i < 2; i++ {
+			var sc []step
+			for _, gs := range order {
+				if gs.srv == i {
+					sc = append(sc, gs.st)
+				}
+			}
+			sn := mk(fl, false, keep, sc, tag)
+			sn.transport, sn.ctxKind, sn.h2c = "http", "cancel", map[int]bool{}
+			sn.idle, sn.read, sn.write, sn.readHeader = 0, 0, 0, 0
+			sn.reload = i == 1
+			g.idx = append(g.idx, len(scs)-1)
+		}
+		var desc []string
+		for _, gs := range order {
+			desc = append(desc, fmt.Sprintf("%c:%s", 'A'+gs.srv, scriptString([]step{gs.st})))
+		}
+		for i, k := range g.idx {
+			groupOf[k] = fmt.Sprintf("instance %c of a reload on one address (B is started while A drains); global order: %s", 'A'+i, strings.Join(desc, "; "))
+		}
+		groups = append(groups, g)
+	}
+	{
+		G := func(srv int, st step) gstep { return gstep{srv, st} }
+		S, A := step{"start", 0}, step{"await", 0}
+		rreps := 1
+		if cfg.Thorough() {
+			rreps = 6
+		}
+		for rep := 0; rep < rreps; rep++ {
+			for _, fl := range flavors {
+				// the old listener is known to be closed before the new instance starts
+				addReload(fl, rep%2 == 1, []gstep{G(0, S), G(0, L(0)), G(0, C), G(0, U), G(1, S), G(0, P), G(0, R(0)), G(0, A),
+					G(1, C), G(1, A), G(0, step{"late", 80}), G(1, step{"late", 81})}, "reload_same_address")
+				// the new instance starts right after the cancellation (it may find the address busy)
+				addReload(fl, false, []gstep{G(0, S), G(0, L(0)), G(0, L(1)), G(0, R(1)), G(0, C), G(1, S), G(0, P), G(0, R(0)), G(0, A),
+					G(1, C), G(1, A), G(0, step{"late", 80}), G(1, step{"late", 81})}, "reload_same_address")
+			}
+		}
+	}
+
 	// ---- one runner func, several servers ----
 	G := func(srv int, st step) gstep { return gstep{srv, st} }
 	S := step{"start", 0}
@@ -695,6 +739,12 @@ func main() {
 		}
 		tr := map[string]string{"http": "THttp", "tls": "TTls", "tls_h2": "TTlsH2", "h2c": "TH2c"}[s.transport]
 		le := "LNone"
+		if s.reload && res.rv == "VListenErr" {
+			// the address was still held by the draining instance: a listener that could not start
+			le = "LAddrInUse"
+			evs = append([]string{"ListenFail"}, evs...)
+			evjs = append([]string{"ListenFail"}, evjs...)
+		}
 		if s.listenErr == "emfile" {
 			le = "LTemporary"
 		} else if s.portHeld {
@@ -748,8 +798,11 @@ func main() {
 		if s.listenErr != "" {
 			w.Count("listen_error:" + s.listenErr)
 		}
-		if groupOf[i] != "" {
+		if groupOf[i] != "" && !strings.HasPrefix(groupOf[i], "instance") {
 			w.Count("shared_runner_func")
+		}
+		if s.reload {
+			w.Count("reload_instance_bound:" + map[bool]string{true: "no_address_in_use", false: "yes"}[res.rv == "VListenErr"])
 		}
 		for name, d := range map[string]time.Duration{"idle_timeout": s.idle, "read_timeout": s.read, "write_timeout": s.write, "read_header_timeout": s.readHeader} {
 			if d > 0 {
